@@ -1,7 +1,7 @@
 //! R-server: reply generator for every reply kind of the C05/C07/C08/C10/C17 alphabets, built with R-codec +
 //! R-crypto (never with the subject's encoder), and the RFC 8489 §9.2.4 acceptance judge.
 
-use super::world::{Mech, World, OTHER_PASS, PASS, USER};
+use super::world::{Mech, World, USER};
 use crate::menu::cookie_nonce;
 use crate::refs::codec::{self, ref_encode_with, ref_parse, Addr, LMsg, Mac, L};
 use crate::refs::crypto;
@@ -65,6 +65,10 @@ pub struct Chal {
     /// which realm the challenge names: 0 = REALM, 1 = the same letters in another case, 2 = another realm
     #[serde(default)]
     pub realm_v: u8,
+    /// order of the challenge attributes in the reply: 0 = REALM, NONCE, PASSWORD-ALGORITHMS; 1 = the reverse
+    /// (RFC 8489 imposes no order on them)
+    #[serde(default)]
+    pub order: u8,
 }
 
 pub fn realm_name(v: u8) -> &'static str {
@@ -134,7 +138,12 @@ pub fn pas_list(p: PasKind) -> Option<Vec<(u16, Vec<u8>)>> {
 
 /// long-term key by R-crypto: alg 1 = MD5, 2 = SHA-256 of "user:realm:password"
 pub fn lt_key(alg: u16, realm: &str, pass: &str) -> Vec<u8> {
-    let s = format!("{}:{}:{}", USER, realm, pass);
+    lt_key_for(USER, alg, realm, pass)
+}
+
+/// the same for an arbitrary user name (`pass` is the enforced password)
+pub fn lt_key_for(user: &str, alg: u16, realm: &str, pass: &str) -> Vec<u8> {
+    let s = format!("{}:{}:{}", user, realm, pass);
     if alg == 2 {
         crypto::sha256(s.as_bytes()).to_vec()
     } else {
@@ -153,9 +162,10 @@ pub fn request_algorithm(req: &[u8]) -> Option<u16> {
 
 /// Key a server would authenticate its reply to `req` with.
 pub fn reply_key(w: &World, req: Option<&[u8]>, other_pass: bool) -> Vec<u8> {
-    let pass = if other_pass { OTHER_PASS } else { PASS };
+    let c = w.cfg.creds();
+    let pass = if other_pass { c.other_pass_key } else { c.pass_key };
     match w.cfg.mech {
-        Mech::LongTerm => lt_key(req.and_then(request_algorithm).unwrap_or(1), &req.and_then(request_realm).unwrap_or_else(|| REALM.to_string()), pass),
+        Mech::LongTerm => lt_key_for(c.user, req.and_then(request_algorithm).unwrap_or(1), &req.and_then(request_realm).unwrap_or_else(|| REALM.to_string()), pass),
         _ => pass.as_bytes().to_vec(),
     }
 }
@@ -172,15 +182,20 @@ pub fn build_reply(w: &World, tid: [u8; 12], req: Option<&[u8]>, r: &Reply) -> V
         RClass::Request => (0, vec![L::Software("req".into())]),
     };
     if let Some(c) = &r.chal {
+        let mut ch: Vec<L> = vec![];
         if c.realm {
-            attrs.push(L::Realm(realm_name(c.realm_v).into()));
+            ch.push(L::Realm(realm_name(c.realm_v).into()));
         }
         if let Some(n) = nonce_string(c.nonce) {
-            attrs.push(L::Nonce(n));
+            ch.push(L::Nonce(n));
         }
         if let Some(p) = pas_list(c.pas) {
-            attrs.push(L::PasswordAlgorithms(p));
+            ch.push(L::PasswordAlgorithms(p));
         }
+        if c.order == 1 {
+            ch.reverse();
+        }
+        attrs.extend(ch);
     }
     let mut macs = vec![Mac::Good; attrs.len()];
     let other = matches!(r.mac, RMac::MiOtherPass | RMac::ShaOtherPass);
@@ -221,7 +236,7 @@ pub fn build_reply(w: &World, tid: [u8; 12], req: Option<&[u8]>, r: &Reply) -> V
         }
     }
     let key = reply_key(w, req, other);
-    let lm = LMsg { method: 1, class, tid, attrs };
+    let lm = LMsg { method: w.cfg.method, class, tid, attrs };
     let mut bytes = ref_encode_with(&lm, Some(&key), &macs);
     if r.fp == RFp::MisplacedWrongLen {
         // FINGERPRINT followed by one more attribute; CRC over everything before it with the *final* length
@@ -273,6 +288,10 @@ fn pa_value(list: &[(u16, Vec<u8>)]) -> Vec<u8> {
 }
 
 pub fn accept(req: &[u8], ch: &Challenge) -> Verdict {
+    accept_for(req, ch, &super::world::creds(0))
+}
+
+pub fn accept_for(req: &[u8], ch: &Challenge, cr: &super::world::Creds) -> Verdict {
     let p = match ref_parse(req) {
         Ok(p) => p,
         Err(_) => return Verdict::Reject(400, "unparseable-request"),
@@ -315,19 +334,19 @@ pub fn accept(req: &[u8], ch: &Challenge) -> Verdict {
     }
     if ch.anon_bit {
         match hash {
-            Some(h) if h.value == crypto::sha256(format!("{}:{}", USER, ch.realm).as_bytes()) => {}
+            Some(h) if h.value == crypto::sha256(format!("{}:{}", cr.user, ch.realm).as_bytes()) => {}
             _ => return Verdict::Reject(401, "userhash"),
         }
     } else {
         match user {
-            Some(u) if u.value == USER.as_bytes() => {}
+            Some(u) if u.value == cr.user.as_bytes() => {}
             _ => return Verdict::Reject(401, "username"),
         }
     }
     if realm.value != ch.realm.as_bytes() {
         return Verdict::Reject(401, "realm");
     }
-    let key = lt_key(alg, &ch.realm, PASS);
+    let key = lt_key_for(cr.user, alg, &ch.realm, cr.pass_key);
     // RFC 8489 9.2.4: MESSAGE-INTEGRITY-SHA256 is checked when present, otherwise MESSAGE-INTEGRITY
     match (sha, mi) {
         (Some(t), _) => {
